@@ -48,7 +48,7 @@ def main():
         env = {'PYTHONPATH': os.path.join(wt, 'src')}
         demo = os.path.join(wt, 'demo.py')
         with open(demo, 'w') as f:
-            f.write(re.sub(r'/tmp/wt[2345]?_c\d+[a-z]', wt, demo_text))
+            f.write(re.sub(r'/tmp/wt[2-9]?_c\d+[a-z]', wt, demo_text))
         rc0, out0 = sh('%s %s' % (PY, demo), cwd=wt, env=env)
         meta['ran'].append({'cmd': 'demo.py on the unchanged tree', 'exit': rc0, 'tail': out0[-300:]})
         rc, out = sh('git -C %s apply %s' % (wt, patch))
